@@ -737,6 +737,7 @@ class AdvertisingSet(utils.EventEmitter):
                 random_address=(random_address or self.device.random_address),
             )
         )
+        self.random_address = random_address or self.device.random_address
 
     async def start(
         self, duration: float = 0.0, max_advertising_events: int = 0
